@@ -175,11 +175,19 @@ def families(thorough):
 
 def cases(thorough):
     for label, trees in families(thorough):
+        big = len(trees) > 300
+        if thorough and len(trees) > 2000:
+            trees = trees[::4]  # the 4133-tree 3-D family is thinned in the thorough tier (reported in the evidence)
         for t in trees:
             for spec in level_specs(t.levelmax):
                 for extra in EXTRA:
                     for cfg in CFGS:
                         if extra != "none" and cfg["name"] != "1cpu" and not thorough:
+                            continue
+                        # large families: every tree and level predicate, with the extras and configurations one at a time
+                        if big and extra != "none" and cfg["name"] != "1cpu":
+                            continue
+                        if big and spec[0] in ("lt", "land") and (extra != "none" or cfg["name"] != "1cpu"):
                             continue
                         yield label, t, spec, extra, cfg["name"]
 
